@@ -54,7 +54,7 @@ Definition append_mini_sector : M unit :=
   (if negb (mlen mod MINI_SECTOR_LEN =? 0) then panic 504 else ret tt) ;;
   do new_start <-
     (if start =? END_OF_CHAIN then
-       (if negb (mlen =? 0) then panic 505 else ret tt) ;;
+       (if negb (mlen =? 0) then fail EInvalidData else ret tt) ;;
        begin_chain IZero
      else
        do c <- chain_new start IZero;
@@ -145,8 +145,7 @@ Definition free_mini_sector (ms : N) : M unit :=
     (if negb (d_len r mod MINI_SECTOR_LEN =? 0) then panic 510 else ret tt) ;;
     do s <- get;
     let '(mf', k) := strip_free (minifat s) 0 in
-    (if d_len r <? k * MINI_SECTOR_LEN then panic 511 else ret tt) ;;       (* u64 underflow *)
-    let new_len := d_len r - k * MINI_SECTOR_LEN in
+    let new_len := d_len r - k * MINI_SECTOR_LEN in          (* saturating_sub, once per stripped entry *)
     put (w_mfree (w_minifat s mf') (filter (fun i => i <? lenN mf') (mfree s))) ;;
     if negb (new_len =? d_len r) then
       with_dir_entry_mut ROOT_STREAM_ID (fun e => set_start_len e (d_start e) new_len)
